@@ -64,6 +64,7 @@ Emit(name, args) ==
 AEdit == \E d \in Devices, k \in EditKinds, n \in Names, t \in Times :
             t >= LastTime(d) /\ Edit(d, k, n, t) /\ Emit("Edit", <<d, k, n, t>>)
 AQuiesce == Quiesce /\ Emit("Quiesce", <<>>)
+AHardReset == \E d \in Devices : HardReset(d) /\ Emit("HardReset", <<d>>)
 AReqStatus == \E d \in Devices : ReqStatus(d) /\ Emit("ReqStatus", <<d>>)
 AReqSync == \E d \in Devices : ReqSync(d) /\ Emit("ReqSync", <<d>>)
 AMergeReply == \E d \in Devices : MergeReply(d) /\ Emit("MergeReply", <<d>>)
@@ -73,6 +74,6 @@ AReqPatch == \E d \in Devices : ReqPatch(d) /\ Emit("ReqPatch", <<d>>)
 ARewindLocal == \E d \in Devices : RewindLocal(d) /\ Emit("RewindLocal", <<d>>)
 AForceMerge == \E d \in Devices : ForceMerge(d) /\ Emit("ForceMerge", <<d>>)
 
-MCNext == \/ AEdit \/ AQuiesce \/ AReqStatus \/ AReqSync \/ AMergeReply \/ AReqScan
+MCNext == \/ AEdit \/ AQuiesce \/ AHardReset \/ AReqStatus \/ AReqSync \/ AMergeReply \/ AReqScan
           \/ AReqDiff \/ AReqPatch \/ ARewindLocal \/ AForceMerge
 =============================================================================
